@@ -9,13 +9,15 @@ transfer carries the value into ga's y02.  The approximated group is one unit fo
 and the jacobian rows of the irrelevant output are pruned: the root solver can never bring that entry of its residual to
 zero and reports non-convergence (AnalysisError with err_on_non_converge).  With OPENMDAO_NO_RELEVANCE=1, with c22 using
 compute_partials, or without approx_totals on ga the same call converges in 2 sweeps.
-usage: python repro-s2-approx-group-irrelevant-output.py [mf|exp] [approx|noapprox]
+With a root ScipyKrylov the failed gmres also returns a WRONG total.
+usage: python repro-s2-approx-group-irrelevant-output.py [mf|exp] [approx|noapprox] [lnbgs|krylov]
 """
 import sys
 import openmdao.api as om
 
 kind = sys.argv[1] if len(sys.argv) > 1 else 'mf'
 approx = (sys.argv[2] if len(sys.argv) > 2 else 'approx') == 'approx'
+root = sys.argv[3] if len(sys.argv) > 3 else 'lnbgs'
 
 
 class C22(om.ExplicitComponent):
@@ -58,7 +60,10 @@ ga.add_subsystem('c10', om.ExecComp('y10 = 4*x1'), promotes=['*'])
 if approx:
     ga.approx_totals(method='cs')
 m.add_subsystem('c22', C22mf() if kind == 'mf' else C22exp(), promotes=['*'])
-m.linear_solver = om.LinearBlockGS(maxiter=10, atol=1e-12, rtol=1e-12, iprint=-1, err_on_non_converge=True)
+if root == 'lnbgs':
+    m.linear_solver = om.LinearBlockGS(maxiter=10, atol=1e-12, rtol=1e-12, iprint=-1, err_on_non_converge=True)
+else:
+    m.linear_solver = om.ScipyKrylov(maxiter=20, atol=1e-12, rtol=1e-12, iprint=0)
 p.setup(mode='rev')
 p.run_model()
 try:
